@@ -362,6 +362,32 @@ pub fn run_c08(ctx: &Ctx) -> i32 {
             Err(e) => report_obs_err(ctx, "streams", idx, &case, &e, out),
         }
     });
+    // (b') streams assembled with the public constructors (every partition order, predictor orders
+    // up to the first partition's length, LPC coefficient vectors with zero taps): counted like
+    // the encoder's, as constructed and as the parser returns them
+    let n = ctx.tier.pick(1200, 40_000);
+    run_cases(ctx, "built", n, &mut out, |idx, out| {
+        let mut rng = Rng::for_case(ctx.seed, "C08.built", idx);
+        let Some((case, stream)) = crate::mon_a::constructed_stream(&mut rng) else {
+            out.count("built_skipped");
+            return;
+        };
+        out.distinct.insert(case.key() ^ 0xB017);
+        let d = case.describe();
+        oracle_c08_stream(ctx, "built", idx, &d, &stream, out);
+        if case.audio.recipe.contains("zero-taps") {
+            out.count("built_streams_with_zero_lpc_taps");
+        }
+        if idx % 2 == 0 {
+            type NomErr<'a> = nom::error::Error<&'a [u8]>;
+            if let Ok(bytes) = enc::to_bytes(&stream) {
+                if let Ok(Ok((_, s2))) = catch(|| flacenc::component::parser::stream::<NomErr<'_>>(&bytes)) {
+                    out.count("built_parsed_trees_checked");
+                    oracle_c08_stream(ctx, "built", idx, &d, &s2, out);
+                }
+            }
+        }
+    });
     // (c) constructed residuals
     let n = ctx.tier.pick(12_000, 400_000);
     run_cases(ctx, "residual", n, &mut out, |idx, out| {
